@@ -6,7 +6,7 @@ use crate::framework::*;
 use crate::gen::{gen_program, Emph, GenCfg};
 use crate::json::{obj, Json};
 use crate::prng::Rng;
-use crate::props::c01::{finish_session, C01Case, Step};
+use crate::props::c01::{finish_session, sched_of, C01Case, Step};
 use crate::props::c03::fatal_violation;
 use crate::refbasic::Ended;
 use crate::session::*;
@@ -167,9 +167,24 @@ impl Property for C09 {
         let mut case = base_case(rng, prog, "C09");
         case.session.push(Step::Direct(vec![Stmt::Run(None)]));
         let steps = 1 + rng.below(7) as usize;
+        let mut pending: Vec<Step> = vec![];
         grow(rng, &mut case, steps, |rng, case, last, _i| {
             let cur = current_program(case);
             let after_edit = matches!(case.session.last(), Some(Step::Edit(_)));
+            if !after_edit {
+                if let Some(s) = pending.pop() {
+                    return Some(s);
+                }
+                if rng.pct(8) && !cur.lines.is_empty() {
+                    // DATA typed in direct mode must not become part of the program's list:
+                    // position at the very end, read once more
+                    let item = if rng.pct(50) { Expr::Int(7) } else { Expr::Str("DIRECT".into()) };
+                    let target = if matches!(item, Expr::Int(_)) { LVal::scalar("A") } else { LVal::scalar("S$") };
+                    pending.push(Step::Direct(vec![Stmt::Read(vec![target])]));
+                    pending.push(Step::Direct(vec![Stmt::Restore(Some(Target::L(cur.lines.len() - 1)))]));
+                    return Some(Step::Direct(vec![Stmt::Data(vec![item])]));
+                }
+            }
             if after_edit {
                 // the position after an edit is only defined again by RUN / CLEAR / RESTORE
                 return Some(Step::Direct(match rng.below(4) {
@@ -218,7 +233,7 @@ impl Property for C09 {
         }
     }
     fn rule(&self) -> &'static str {
-        "one evaluation = a generated program with DATA lines before, between and after the code (also inside never-executed IF branches), READ lists of 1-4 targets of every type, RESTORE and RESTORE n to arbitrary existing lines, plus a session of 2-8 steps: RUN, direct-mode READ/RESTORE/RESTORE n between runs, edits that insert, change or delete DATA lines followed by RUN / CLEAR / RESTORE, CLEAR, STOP + direct READ + CONT; every typed line's screen transcript is compared with RefBASIC's data-pointer model; distinct = distinct API/event log fingerprint; non-trivial = more than 10 VM instructions"
+        "one evaluation = a generated program with DATA lines before, between and after the code (also inside never-executed IF branches), READ lists of 1-4 targets of every type, RESTORE and RESTORE n to arbitrary existing lines, plus a session of 2-8 steps: RUN, direct-mode READ/RESTORE/RESTORE n between runs, edits that insert, change or delete DATA lines followed by RUN / CLEAR / RESTORE, CLEAR, STOP + direct READ + CONT, DATA typed as a direct statement followed by RESTORE <last line> and READ; every typed line's screen transcript is compared with RefBASIC's data-pointer model; distinct = distinct API/event log fingerprint; non-trivial = more than 10 VM instructions"
     }
     fn assumptions(&self) -> Vec<&'static str> {
         vec![
@@ -228,7 +243,7 @@ impl Property for C09 {
         ]
     }
     fn required_probes(&self) -> Vec<&'static str> {
-        vec!["reach.READ", "reach.RESTORE", "fault.edit", "reach.CONT", "c01.lines_compared"]
+        vec!["reach.READ", "reach.RESTORE", "fault.edit", "reach.CONT", "c01.lines_compared", "c01.direct_data_not_judged"]
     }
 }
 
@@ -776,11 +791,147 @@ impl C06Gen {
     }
 }
 
+/// A mixed-type SWAP (or another failing store) inside a stored program, then CONT: the rejected
+/// statement must leave its operands unchanged for good, also when the program is continued.
+#[derive(Clone)]
+struct C06ContCase {
+    a: (String, String),
+    b: (String, String),
+    stmt: String,
+    /// the statement is a mixed-type SWAP (both operands must stay unchanged after CONT as well)
+    swap: bool,
+    in_sub: bool,
+    sched_variant: usize,
+    entropy: u64,
+}
+
+impl C06ContCase {
+    fn program(&self) -> Vec<String> {
+        let mut p = vec![format!("10 {}={}:{}={}", self.a.0, self.a.1, self.b.0, self.b.1)];
+        if self.in_sub {
+            p.push("20 FOR I9%=1 TO 1:GOSUB 100:NEXT".into());
+            p.push("30 END".into());
+            p.push(format!("100 {}", self.stmt));
+            p.push("110 RETURN".into());
+        } else {
+            p.push(format!("20 {}", self.stmt));
+            p.push("30 END".into());
+        }
+        p
+    }
+}
+
+impl Case for C06ContCase {
+    fn execute(&self) -> Verdict {
+        let mut v = Verdict::default();
+        let mut w = World::booted(sched_of(self.sched_variant, self.entropy), self.entropy, false);
+        enter_program(&mut w, &self.program());
+        let probe = format!("PRINT \"<\";{};\"<\";{};\">\"", self.a.0, self.b.0);
+        // what the two operands print as when nothing has touched them
+        let mut f = World::booted(Sched::fixed(DEFAULT_Q), self.entropy, false);
+        f.line(&format!("{}={}:{}={}", self.a.0, self.a.1, self.b.0, self.b.1), &LineIo::budget(1000));
+        let o = f.line(&probe, &LineIo::budget(1000));
+        let want = tokens(&f.events[o.ev_start..o.ev_end]);
+        let o = w.line("RUN", &LineIo::budget(5000));
+        let failed = has_error_other_than_break(&w.events[o.ev_start..o.ev_end]);
+        let o = w.line(&probe, &LineIo::budget(1000));
+        let p1 = tokens(&w.events[o.ev_start..o.ev_end]);
+        let mut fail: Option<Violation> = None;
+        if !failed {
+            v.discarded = Some("the statement did not fail".into());
+        } else if p1 != want {
+            fail = Some(Violation {
+                key: "C06:failed-statement-changed-operands".into(),
+                detail: format!("{:?} failed, yet {} (untouched operands are 'expected')", self.stmt, first_diff(&want, &p1)),
+            });
+        } else {
+            w.stats.bump("c06.failed_statement_in_program");
+            w.line("CONT", &LineIo::budget(5000));
+            let o = w.line(&probe, &LineIo::budget(1000));
+            let p2 = tokens(&w.events[o.ev_start..o.ev_end]);
+            w.stats.bump("c06.cont_after_failed_statement");
+            if self.swap && p2 != want && w.fatal.is_none() {
+                fail = Some(Violation {
+                    key: "C06:rejected-swap-completed-by-cont".into(),
+                    detail: format!("{:?} was rejected with an error; after CONT {} (untouched operands are 'expected')", self.stmt, first_diff(&want, &p2)),
+                });
+            }
+        }
+        if let Some(ft) = &w.fatal {
+            fail = Some(fatal_violation("C06", ft));
+        }
+        v.violation = fail;
+        v.stats.merge(&w.stats);
+        v.instr = w.total_instr;
+        v.sim_us = w.sim_us;
+        v.executions = 2;
+        v.fingerprint = w.log_hash;
+        v.nontrivial = true;
+        v
+    }
+    fn shrink(&self) -> Vec<Box<dyn Case>> {
+        let mut out: Vec<Box<dyn Case>> = vec![];
+        if self.in_sub {
+            out.push(Box::new(C06ContCase {
+                in_sub: false,
+                ..self.clone()
+            }));
+        }
+        if self.sched_variant != 0 {
+            out.push(Box::new(C06ContCase {
+                sched_variant: 0,
+                ..self.clone()
+            }));
+        }
+        out
+    }
+    fn describe(&self) -> Json {
+        obj()
+            .set("kind", "C06 failing store inside a stored program: RUN, probe, CONT, probe; a rejected SWAP must leave both operands unchanged for good")
+            .set("program", program_json(&self.program()))
+            .set("session", vec!["RUN".to_string(), "PRINT operands".to_string(), "CONT".to_string(), "PRINT operands".to_string()])
+            .set("quantum_schedule_variant", self.sched_variant)
+            .build()
+    }
+}
+
 impl Property for C06 {
     fn id(&self) -> &'static str {
         "C06"
     }
     fn generate(&self, rng: &mut Rng, _tier: Tier) -> Box<dyn Case> {
+        if rng.pct(6) {
+            // typed operand pairs: (name, initial value)
+            let pool: &[(&str, &str)] = &[("A%", "127"), ("B#", "2.5#"), ("C!", "1.5"), ("D$", "\"hi\""), ("E", "3.25"), ("AR%(2)", "7"), ("SA$(1)", "\"é\""), ("DA#(0,1)", "9.5#")];
+            let a = *rng.pick(pool);
+            let mut b = *rng.pick(pool);
+            let ty = |n: &str| n.chars().find(|c| "%#!$".contains(*c)).unwrap_or('!');
+            let mut guard = 0;
+            while (ty(b.0) == ty(a.0) || b.0 == a.0) && guard < 20 {
+                b = *rng.pick(pool);
+                guard += 1;
+            }
+            let swap = rng.pct(70);
+            let stmt = if swap {
+                format!("SWAP {},{}", a.0, b.0)
+            } else {
+                // another failing store into the first operand
+                match ty(a.0) {
+                    '%' => format!("{}=40000", a.0),
+                    '$' => format!("{}=STRING$(200,\"x\")+STRING$(200,\"y\")", a.0),
+                    _ => format!("{}=\"text\"", a.0),
+                }
+            };
+            return Box::new(C06ContCase {
+                a: (a.0.to_string(), a.1.to_string()),
+                b: (b.0.to_string(), b.1.to_string()),
+                stmt,
+                swap,
+                in_sub: rng.pct(40),
+                sched_variant: rng.usize(7),
+                entropy: rng.next_u64(),
+            });
+        }
         let mut g = C06Gen {
             plain: rng.pct(50),
             dims: Default::default(),
@@ -891,7 +1042,7 @@ impl Property for C06 {
         }
     }
     fn rule(&self) -> &'static str {
-        "one evaluation = a direct-mode session of 3-27 store operations over a universe of names chosen to collide if keys were built carelessly (A% A! A# A$ / B F FA X X2 X22 AB, arrays of 1-3 dimensions, subscripts from {0, 1, bound-1, bound, bound+1, 10, 11, 32767, -1, 1.5, \"x\"}): typed LET incl. failing ones (OVERFLOW, TYPE MISMATCH, STRING TOO LONG, SUBSCRIPT OUT OF RANGE), DIM / second DIM / ERASE / implicit dimensioning, DEFINT/SNG/DBL/STR on ranges, SWAP same-typed and mixed, FOR over typed variables, INPUT into scalars and elements, MID$ assignment, CLEAR, RUN; after EVERY operation a probe line prints the touched names and a sample of others and is compared with RefBASIC's typed map; distinct = distinct API/event log fingerprint"
+        "one evaluation = a direct-mode session of 3-27 store operations over a universe of names chosen to collide if keys were built carelessly (A% A! A# A$ / B F FA X X2 X22 AB, arrays of 1-3 dimensions, subscripts from {0, 1, bound-1, bound, bound+1, 10, 11, 32767, -1, 1.5, \"x\"}): typed LET incl. failing ones (OVERFLOW, TYPE MISMATCH, STRING TOO LONG, SUBSCRIPT OUT OF RANGE), DIM / second DIM / ERASE / implicit dimensioning, DEFINT/SNG/DBL/STR on ranges, SWAP same-typed and mixed, FOR over typed variables, INPUT into scalars and elements, MID$ assignment, CLEAR, RUN; after EVERY operation a probe line prints the touched names and a sample of others and is compared with RefBASIC's typed map; (6%) a mixed-type SWAP or another failing store inside a stored program (top level or in a subroutine called from a FOR), RUN, probe of both operands, CONT, probe again: a rejected SWAP must leave both operands unchanged for good; distinct = distinct API/event log fingerprint"
     }
     fn assumptions(&self) -> Vec<&'static str> {
         vec![
@@ -901,6 +1052,6 @@ impl Property for C06 {
         ]
     }
     fn required_probes(&self) -> Vec<&'static str> {
-        vec!["reach.DIM", "reach.SWAP", "reach.INPUT", "reach.MIDSET", "c01.lines_compared"]
+        vec!["reach.DIM", "reach.SWAP", "reach.INPUT", "reach.MIDSET", "c01.lines_compared", "c06.cont_after_failed_statement"]
     }
 }
